@@ -2,6 +2,9 @@ use crate::axync::{select, stop_channel, unbounded, Receiver, RecvError, Sender}
 use crate::policy::PolicyInner;
 use crate::{CacheError, MetricType, Metrics};
 use futures::future::{BoxFuture, FutureExt};
+#[cfg(transparencies_stretto_verif)]
+use crate::verif::locks::Mutex;
+#[cfg(not(transparencies_stretto_verif))]
 use parking_lot::Mutex;
 use std::collections::hash_map::RandomState;
 use std::hash::BuildHasher;
